@@ -434,6 +434,9 @@ class C14(Prop):
                 if closes and not (first_of_message and H.looks_like_tls(chunk)):
                     return bad('close-without-response', 'connection closed without any response to %r (%s)' % (
                         chunk[:60], 'first read of the message' if first_of_message else 'a later read of a message already begun'))
+                if not closes and not newreq and not also_disconnect and H.answer_due(conn['since']):
+                    classes.append('answer-due')
+                    return bad('stalled', 'complete header block without body framing received, yet no response, no close: %r' % (conn['since'][:120],))
             else:
                 conn['since'] = b''
                 if record and state['first'] is None:
